@@ -1,4 +1,5 @@
 import PytaskProofs.Lemmas.EngineCrash
+import PytaskProofs.Lemmas.EngineOrder
 /-!
 # Convergence after a kill: work that was done is never undone (no edits)
 
@@ -237,6 +238,118 @@ theorem q_protocol_good {F : BodyFn} {P : Project} {g : G} (hwf : WF P g) (hwf2 
     have hfresh : Fresh F s.w spec := q.inv hwf spec hspec hm
     have := q_report_prefix hwf cfg s spec hspec A q hfresh hprod .skipped 0
     simpa using this
+
+end Engine
+end Pytask
+
+/-! ### reports -/
+namespace Pytask
+namespace Engine
+
+def GoodOutcome (o : Outcome) : Prop := o = .success ∨ o = .skipUnchanged
+
+theorem protocol_reports_mono (F : BodyFn) (P : Project) (g : G) (cfg : Cfg) (s : Sess) (t : TaskSpec) :
+    ∀ rep ∈ s.reports, rep ∈ (protocol F P g cfg s t).reports := by
+  have h1 : (runPhases F P g cfg s t).2.reports = s.reports := by
+    unfold runPhases
+    split
+    · split
+      · rfl
+      · simp only []
+        split <;> (try split) <;> rfl
+    · rfl
+  intro rep hrep
+  unfold protocol
+  simp only []
+  rw [← h1] at hrep
+  cases (runPhases F P g cfg s t).1 <;> simp only [processReport] <;> (try split) <;> simp [hrep]
+
+/-- the protocol's own report; a bad outcome is visible in the reports -/
+theorem protocol_raised_good (F : BodyFn) (P : Project) (g : G) (cfg : Cfg) (s : Sess) (t : TaskSpec)
+    (hp : t.persist = false)
+    (hgood : ∀ rep ∈ (protocol F P g cfg s t).reports, GoodOutcome rep.2) :
+    (runPhases F P g cfg s t).1 = .none ∨ (runPhases F P g cfg s t).1 = .skippedUnchanged := by
+  have hnp := runPhases_ne_persisted F P g cfg s t hp
+  unfold protocol at hgood
+  simp only [] at hgood
+  cases hr : (runPhases F P g cfg s t).1
+  case none => exact Or.inl rfl
+  case skippedUnchanged => exact Or.inr rfl
+  case persisted => exact absurd hr hnp
+  all_goals
+    exfalso
+    simp only [hr, processReport] at hgood
+    have := hgood (t.id, _) (List.mem_append_right _ (List.mem_singleton.2 rfl))
+    rcases this with h | h <;> cases h
+
+theorem buildLoop_reports_mono (F : BodyFn) (P : Project) (g : G) (cfg : Cfg) :
+    ∀ (picks : List Nat) (so : Sorter) (s : Sess) (so' : Sorter) (s' : Sess),
+      buildLoop F P g cfg so s picks = .ok (so', s') → ∀ rep ∈ s.reports, rep ∈ s'.reports
+  | [], so, s, so', s', h => by
+    simp only [buildLoop, Except.ok.injEq, Prod.mk.injEq] at h
+    obtain ⟨_, rfl⟩ := h
+    exact fun _ h => h
+  | t :: ts, so, s, so', s', h => by
+    unfold buildLoop at h
+    split at h
+    · cases h
+    split at h
+    · cases h
+    split at h
+    · cases h
+    rename_i spec hfind
+    intro rep hrep
+    exact buildLoop_reports_mono F P g cfg ts _ _ so' s' h rep (protocol_reports_mono F P g cfg s spec rep hrep)
+
+/-- The schedule respects the data flow: when `t` is picked, the producers of its dependencies are settled or were picked
+before (a consequence of `C01_order`: producers are task-ancestors). -/
+def DataOrdered (P : Project) (A : Nat → Prop) (picks : List Nat) : Prop :=
+  ∀ pre t post, picks = pre ++ t :: post → ∀ spec, Project.find? P t = some spec →
+    ∀ u ∈ P.tasks, (∃ d ∈ spec.deps, d ∈ u.prods) → A u.id ∨ u.id ∈ pre
+
+/-- QL: a build loop all of whose protocols end in SUCCESS / SKIP_UNCHANGED settles every task it processes. -/
+theorem q_loop {F : BodyFn} {P : Project} {g : G} (hwf : WF P g) (hwf2 : WF2 P) (cfg : Cfg) :
+    ∀ (picks : List Nat) (so : Sorter) (s : Sess) (so' : Sorter) (s' : Sess) (A : Nat → Prop),
+      Q F P g s.w A → buildLoop F P g cfg so s picks = .ok (so', s') →
+      (∀ rep ∈ s'.reports, GoodOutcome rep.2) → DataOrdered P A picks →
+      Q F P g s'.w (fun x => A x ∨ x ∈ picks)
+  | [], so, s, so', s', A, q, h, _, _ => by
+    simp only [buildLoop, Except.ok.injEq, Prod.mk.injEq] at h
+    obtain ⟨_, rfl⟩ := h
+    exact q.congr (fun x => by simp)
+  | t :: ts, so, s, so', s', A, q, h, hgood, hord => by
+    unfold buildLoop at h
+    split at h
+    · cases h
+    split at h
+    · cases h
+    split at h
+    · cases h
+    rename_i spec hfind
+    have hspec := mem_of_find? hfind
+    have hid : spec.id = t := find?_id hfind
+    have hprod : ∀ u ∈ P.tasks, (∃ d ∈ spec.deps, d ∈ u.prods) → A u.id := by
+      intro u hu hd
+      rcases hord [] t ts rfl spec hfind u hu hd with h | h
+      · exact h
+      · cases h
+    have hout := protocol_raised_good F P g cfg s spec (hwf.noPersist spec hspec)
+      (fun rep hrep => hgood rep (buildLoop_reports_mono F P g cfg ts _ _ so' s' h rep hrep))
+    have q1 := q_protocol_good hwf hwf2 cfg s spec hspec A q hprod hout
+    have hord' : DataOrdered P (fun x => A x ∨ x = spec.id) ts := by
+      intro pre t2 post hts spec2 hf2 u hu hd
+      rcases hord (t :: pre) t2 post (by rw [hts]; rfl) spec2 hf2 u hu hd with h | h
+      · exact Or.inl (Or.inl h)
+      · rcases List.mem_cons.1 h with h | h
+        · exact Or.inl (Or.inr (by rw [hid]; exact h))
+        · exact Or.inr h
+    have q2 := q_loop hwf hwf2 cfg ts _ _ so' s' _ q1 h hgood hord'
+    exact q2.congr (fun x => by rw [hid]; simp [or_assoc])
+
+/-- When every task is settled, every product on disk is its body's function of the contents on disk of its module and
+dependencies: the from-scratch fixpoint. -/
+theorem Q.allFresh {F : BodyFn} {P : Project} {g : G} {w : World} {A : Nat → Prop} (q : Q F P g w A)
+    (hall : ∀ t ∈ P.tasks, A t.id) : ∀ t ∈ P.tasks, Fresh F w t := fun t ht => q.fresh t ht (hall t ht)
 
 end Engine
 end Pytask
